@@ -399,11 +399,10 @@ func (gw guardedWriter[T]) Write(v T) {
 
 type onceChan struct {
 	channel chan any
-	wrote   int32
 }
 
-// newOnceChan returns an onceChan whose only write never blocks,
-// even if nobody is receiving from it anymore.
+// newOnceChan returns an onceChan that keeps the first value written to it;
+// a write never blocks, even if nobody is receiving from it anymore.
 func newOnceChan() *onceChan {
 	return &onceChan{channel: make(chan any, 1)}
 }
@@ -417,8 +416,11 @@ func (oc *onceChan) rethrow() {
 	}
 }
 
+// write keeps val if it is the first value. The buffered send itself decides who is first:
+// once write has returned, the value is visible to rethrow and to the receivers of channel.
 func (oc *onceChan) write(val any) {
-	if atomic.CompareAndSwapInt32(&oc.wrote, 0, 1) {
-		oc.channel <- val
+	select {
+	case oc.channel <- val:
+	default:
 	}
 }
